@@ -92,7 +92,7 @@ def circle(radius, size, circle_centre=(0, 0), origin="middle"):
     #     output = 0
     # (square the radius in double precision: a radius given as a narrow NumPy
     # integer, e.g. numpy.uint8(20), would wrap around in its own type)
-    mask = x * x + y * y <= numpy.multiply(radius, radius, dtype=float)
+    mask = x * x + y * y <= numpy.square(numpy.asarray(radius, dtype=float))
     C[mask] = 1
 
     # (5) Return:
